@@ -659,7 +659,9 @@ def c07(obs):
             if wf['err'] or wf['written'] != src: v.append(('C07', 'a writer accepting %d >= %d bytes: to_writer returned error=%r and wrote %r' % (wf['k'], n, wf['err'], wf['written'])))
         else:
             if not wf['err']: v.append(('C07', 'a writer failing after %d bytes: to_writer did not return the error (buffer has %d bytes)' % (wf['k'], n)))
-            if not src.startswith(wf['written']): v.append(('C07', 'a writer failing after %d bytes: %r was written, which is not a prefix of buffer() %r' % (wf['k'], wf['written'], src)))
+            if 'written_bytes' in wf:
+                if not src.encode('utf-8').startswith(bytes(wf['written_bytes'])): v.append(('C07', 'a writer failing after %d bytes: %r was written, which is not a prefix of buffer() %r' % (wf['k'], bytes(wf['written_bytes']), src.encode('utf-8'))))
+            elif not src.startswith(wf['written']): v.append(('C07', 'a writer failing after %d bytes: %r was written, which is not a prefix of buffer() %r' % (wf['k'], wf['written'], src)))
     return v
 
 
